@@ -70,7 +70,15 @@ class Ctx:
     # common lookups
     def fn(self, suffix):
         """Instances of the function whose def path ends with suffix."""
-        return self.f.instances(suffix)
+        bs = self.f.instances(suffix)
+        if not bs:
+            # the function was renamed (same parent, same signature: inline.effective_known): follow it
+            for old, new in (getattr(self.f, 'inline_report', {}) or {}).get('renamed', {}).items():
+                if old == suffix or old.endswith('::' + suffix):
+                    bs = self.f.instances(new)
+                    if bs:
+                        break
+        return bs
 
     def require_fn(self, suffix):
         bs = self.fn(suffix)
